@@ -29,6 +29,10 @@ def subharnesses(tier):
     # the treadmill root is reached through a symbolic link whose target lies
     # deeper than the link (/treadmill -> /vol/data/local/treadmill): what a
     # live owner created must survive garbage collection there too
+    # a container starts (owner directory + rule) while a collection pass is
+    # under way, at any point between two file-system calls of the pass
+    subs.append(('rule-gc_concurrent_create',
+                 {'mgr': 'rule', 'op': 'gc_concurrent_create'}))
     for mgr in ('vip', 'rule', 'spec'):
         for op in ('gc', 'create_then_gc'):
             spec = {'mgr': mgr, 'op': op, 'layout': 'symlinked'}
@@ -232,6 +236,48 @@ def _rule(S, spec):
         elif table[names[k]] is not None:
             S.reach('unlink_by_non_owner')
         _expect(S, 'C14:unlink_rule_changed_something_not_owned', rdir, table)
+    elif op == 'gc_concurrent_create':
+        S.assume(table[names[k]] is None)        # the new container's rule
+        at = S.choice('concurrent_create_before_fs_call', 8)
+        ncalls = [0]
+        busy = [False]
+
+        def concurrent():
+            busy[0] = True
+            try:
+                os.makedirs(os.path.join(owners, 'o3'))
+                mgr.create_rule(chain, rule, 'o3')
+                table[names[k]] = 'o3'
+                S.reach('created_during_gc')
+            finally:
+                busy[0] = False
+
+        class _Os:
+            def __getattr__(self, n):
+                real = getattr(os, n)
+                if n not in ('listdir', 'stat', 'lstat', 'readlink',
+                             'unlink', 'scandir') or busy[0]:
+                    return real
+
+                def wrapped(*a, **kw):
+                    if not busy[0]:
+                        if ncalls[0] == at:
+                            ncalls[0] += 1
+                            concurrent()
+                        else:
+                            ncalls[0] += 1
+                    return real(*a, **kw)
+                return wrapped
+        rulefile.os = _Os()
+        try:
+            mgr.garbage_collect()
+        finally:
+            rulefile.os = os
+        for n, o in list(table.items()):
+            if o == DEAD:
+                table[n] = None
+        _expect(S, 'C14:rule_gc_did_not_reclaim_exactly_the_orphans', rdir,
+                table)
     elif op == 'create_then_gc':
         try:
             mgr.create_rule(chain, rule, owner)
